@@ -118,8 +118,9 @@ def a04_window_invariant(ctx):
                 if k2 in seen:
                     continue
                 seen.add(k2)
-                if name == 'Index::index' and ob.kind == 'panic' and 'index' in ob.fn and 'closure' in ob.fn:
-                    continue        # the documented "Window index {index} is out of range" panic for an out-of-range logical index
+                if name == 'Index::index' and ob.kind == 'panic' and 'Index<' in ob.fn and '::index' in ob.fn:
+                    continue        # the documented explicit panic!("Window index {index} is out of range") for an out-of-range logical index
+                                    # (in the function itself or in the closure it hands to unwrap_or_else); bounds / overflow checks are not exempt
                 r.violate('%s|%s' % (key, k2), 'under the representation invariant Window::%s can still reach a %s in %s: %s [%s]' % (
                     name, ob.kind, ob.fn, ob.detail, '; '.join(ob.operands)), ob.file, ob.line)
             if ex.undecided_callees:
